@@ -223,7 +223,7 @@ func init() {
 			settles := func(fn *ssa.Function, before ssa.Instruction) bool {
 				fa := e.FA(fn)
 				for _, c := range Calls(fn) {
-					callee := c.Common().StaticCallee()
+					callee := Devirt(c.Common())
 					if callee == nil {
 						continue
 					}
